@@ -11,13 +11,14 @@ QUICK_S = 45
 THOROUGH_S = 600
 RULE = ('one caller, one real synchronous client (TCP, UDP, serial rtu/ascii/binary, framer-over-TCP); per transmission '
         'attempt the scripted peer does one of {reply, exception, nothing, k of n bytes, garbage, wrong unit, wrong tid, stale '
-        'frame first, late reply after the timeout, duplicate, reset, close}; retries 0-3 x retry_on_empty x '
+        'frame first, late reply after the timeout, duplicate, reset, close, or the correct reply slowly (late start, TCP: 2-5 '
+        'segments spread over <= 0.85 x timeout)}; retries 0-3 x retry_on_empty x '
         'retry_on_invalid x backoff; systematic part: every script of length <= 2 over the alphabet for every client kind; '
         'seeded part: scripts up to length 5 over 1-3 faulty transactions; every run ends with a healthy follow-up '
         'transaction. Oracles: the call returns (no exception except failure to connect, no simulated deadlock, step cap '
         'not hit, virtual duration <= (1+retries)(4 timeout + 1 s) + sum(backoff) + 1 s); the request frame is on the wire '
         '<= 1+retries times; retry_on_empty / retry_on_invalid deliver a valid reply that arrives within the retry budget; '
-        'the follow-up returns its own correct reply. Non-trivial = >=1 non-reply action fired; distinct = kernel '
+        'a correct reply that is complete within the timeout is returned; the follow-up returns its own correct reply. Non-trivial = >=1 non-reply action fired; distinct = kernel '
         'event-kind sequence + client kind + framing')
 ASSUMPTIONS = ['connection refusal may raise ConnectionException (excepted by the statement)',
                'the duration bound is deliberately generous: it separates slow from never',
@@ -29,7 +30,7 @@ ALPHABET = ['reply', 'exception', 'nothing', 'partial', 'garbage', 'wrong_unit',
 KINDS = [('tcp', 'tcp'), ('udp', 'tcp'), ('serial', 'rtu'), ('serial', 'ascii'), ('serial', 'binary'), ('tcp', 'rtu')]
 
 
-def attempt(act, rng, framing, op, timeout, gen):
+def attempt(act, rng, framing, op, timeout, gen, kind=None):
     good = codec.frame(framing, op['unit'], cli.reply_pdu(op), tid=1)
     a = {'act': act}
     if act == 'exception':
@@ -45,6 +46,19 @@ def attempt(act, rng, framing, op, timeout, gen):
         a['gap'] = 0.0
     elif act == 'late':
         a['delay'] = timeout * 1.5
+    elif act == 'slow':
+        # the correct reply, slowly: late start and (stream transports) several segments, complete after at
+        # most 0.85 x timeout - short reads, but no fault
+        d0, gap = (0.05, 0.25) if rng is None else rng.choice([(0.1, 0.05), (0.3, 0.1), (0.4, 0.1), (0.05, 0.25), (0.02, 0.2), (0.5, 0.0)])
+        nseg = min(3 if rng is None else rng.randint(2, 4), int((0.85 - d0) / gap) if gap else 4)
+        a['act'] = 'exception' if 'exc' in (op.get('reply') or {}) else 'reply'
+        a['code'] = (op.get('reply') or {}).get('exc', 2)
+        a['slow'] = True
+        a['delay'] = round(timeout * d0, 6)
+        if kind == 'tcp' and len(good) > 4:      # (segments spaced out in time exist on TCP only)
+            a['cuts'] = sorted(set((7 * (i + 1)) % len(good) or 1 for i in range(nseg)) if rng is None
+                               else set(rng.randrange(1, len(good)) for _ in range(nseg)))
+            a['cutgap'] = round(timeout * gap, 6)
     elif act == 'wrong_unit':
         a['du'] = 1 if rng is None else rng.choice([1, 3, 100])
     elif act == 'wrong_tid':
@@ -80,6 +94,10 @@ def generate(rng, tier, index):
         op = gen.op(unit=unit, maxn=20, exc_rate=0.1)
         n = rng.choice([1, 1, 2, 3, 4, 5])
         op['script'] = [attempt(rng.choice(enabled), rng, framing, op, timeout, gen) for _ in range(n)]
+        if rng.random() < 0.15 and kw.get('timeout'):
+            # only "no reply" attempts (possibly none), then the correct reply arrives slowly but in time
+            op['script'] = [attempt('nothing', rng, framing, op, timeout, gen) for _ in range(rng.choice([0, 0, 1, 2]))] + \
+                [attempt('slow', rng, framing, op, timeout, gen, kind=kind)]
         ops.append(op)
     # faults must have stopped before the follow-up: let every scripted peer action (late replies,
     # resets) arrive first
@@ -191,11 +209,21 @@ def execute(scn):
             continue
         # (3) documented retry options
         if script and not last:
-            j = len(script)
-            empties = all(a in ('nothing',) for a in acts)
-            invalids = all(a in ('wrong_unit',) for a in acts)
-            if j <= retries and ((empties and kw.get('retry_on_empty')) or (invalids and kw.get('retry_on_invalid'))) \
-                    and not cc.leftover_input(res, call):
+            slow_end = bool(script[-1].get('slow'))
+            body = acts[:-1] if slow_end else acts
+            j = len(body)
+            empties = all(a in ('nothing',) for a in body)
+            invalids = all(a in ('wrong_unit',) for a in body) and j > 0
+            if slow_end and j == 0 and not cc.leftover_input(res, call) and kind in ('tcp', 'serial'):
+                ok, why = cc.values_match(op, r)
+                if not ok:
+                    add('timely-reply-rejected', 'call %d: the correct reply arrived slowly (start after %.3f s, %d segments %.3f s apart) '
+                        'but completely within the timeout of %.3f s, and the call returned %s (%s)'
+                        % (call['index'], script[-1].get('delay', 0), 1 + len(script[-1].get('cuts') or []),
+                           script[-1].get('cutgap', 0), timeout or 0, type(r).__name__, why),
+                        segments=min(1 + len(script[-1].get('cuts') or []), 3))
+            elif j and j <= retries and ((empties and kw.get('retry_on_empty')) or (invalids and kw.get('retry_on_invalid'))) \
+                    and not cc.leftover_input(res, call) and (not slow_end or kind in ('tcp', 'serial')):
                 ok, why = cc.values_match(op, r)
                 if not ok:
                     add('retry-not-honoured', 'call %d: %d %s repl%s then a valid reply within the budget (retries=%d, '
